@@ -1,10 +1,10 @@
 #!/bin/sh
-# tools/runall.sh [tier] [seed...] : run every registered check, print rc and wall time per check
+# tools/runall.sh [tier] [seed...] : run every registered check (or those in $ONLY), print rc and wall time per check
 cd "$(dirname "$0")/.." || exit 2
 TIER=${1:-quick}; shift
 SEEDS=${*:-1}
 for s in $SEEDS; do
-  for id in $(python3 -c "import json;print(' '.join(c['property_id'] for c in json.load(open('MANIFEST.json'))['checks']))"); do
+  for id in ${ONLY:-$(python3 -c "import json;print(' '.join(c['property_id'] for c in json.load(open('MANIFEST.json'))['checks']))")}; do
     t0=$(date +%s)
     out=$(VERIF_SEED=$s ./check $id $TIER 2>&1); rc=$?
     t1=$(date +%s)
